@@ -1058,6 +1058,56 @@ impl Run {
                 self.cleanup();
                 return;
             }
+            6 => {
+                // close while a memtable flush is running and NOTHING else is scheduled: the lock
+                // must stay held until that one task has ended
+                self.round("gate-close-during-flush");
+                if !self.ctx.small_mem {
+                    return;
+                }
+                self.seq_close_all_but_one();
+                self.ensure_owner();
+                if self.held.is_empty() {
+                    return;
+                }
+                const BG: &str = "raindb-tumtum";
+                // let earlier background work settle, so that the next table created is the
+                // flush of the next rotated memtable
+                let _ = crate::common::wait_quiescent(&self.held[0].1, Duration::from_secs(20));
+                self.ctx.gates.arm(BG, "create_table");
+                let mut parked = false;
+                for _ in 0..30 {
+                    self.probe_all();
+                    if self.ctx.gates.is_parked(BG, "create_table") {
+                        parked = true;
+                        break;
+                    }
+                }
+                if !parked {
+                    self.ctx.gates.disarm(BG, "create_table");
+                    self.intruders();
+                    return;
+                }
+                let (h, db) = self.held.remove(0);
+                let ctx = Arc::clone(&self.ctx);
+                let c = ctx.new_call();
+                std::thread::scope(|s| {
+                    let ctx2 = &ctx;
+                    let th = std::thread::Builder::new()
+                        .name("g8".to_string())
+                        .spawn_scoped(s, move || ctx2.close(c, "g8", h, db))
+                        .unwrap();
+                    std::thread::sleep(Duration::from_millis(30));
+                    // the owner is closing, its flush is suspended at the creation of the table
+                    self.seq_open();
+                    self.probe_all();
+                    ctx.gates.disarm(BG, "create_table");
+                    ctx.gates.release(BG);
+                    let _ = th.join();
+                });
+                self.seq_open();
+                self.probe_all();
+            }
             5 => {
                 // close while a table compaction with a memtable flush inside its loop is running:
                 // the lock must stay held until that background work has stopped
@@ -1363,7 +1413,7 @@ pub fn cmd(m: &HashMap<String, String>) -> i32 {
             // (c) forced schedules, (b) races, interleaved
             let mut plan: Vec<usize> = vec![];
             for _ in 0..gates {
-                plan.extend(0..7usize);
+                plan.extend(0..8usize);
             }
             let mut kinds: Vec<Option<usize>> = plan.into_iter().map(Some).collect();
             kinds.extend((0..rounds).map(|_| None));
